@@ -301,8 +301,10 @@ class Flat(Harness):
                 for op in ("idx_last", "slice_mid", "rev", "mask", "ilist", "eq_char", "eq_array", "assign_idx", "assign_mask", "concat", "copy",
                            "assign_idx_str", "assign_mask_str", "assign_slice_str",      # *_str: the assigned value is a Python str (documented)
                            "where", "append", "insert", "argsort", "lexsort", "zeros_like",       # NumPy array functions forwarded by __array_function__
-                           "string_edit_string"):       # history: converted to text, edited in place, converted again
-                    if n == 0 and op in ("idx_last", "ilist", "assign_idx", "assign_idx_str", "insert", "string_edit_string"):
+                           "string_edit_string",        # history: converted to text, edited in place, converted again
+                           "mask_pylist",                # the mask as a plain Python list of bools
+                           "assign_via_rev", "assign_via_step"):     # assignment through a reversed / strided slice reaches the array it was taken from
+                    if n == 0 and op in ("idx_last", "ilist", "assign_idx", "assign_idx_str", "insert", "string_edit_string", "assign_via_rev", "assign_via_step"):
                         continue
                     if op == "string_edit_string" and kind != "ascii":      # characters are compared as byte values
                         continue
@@ -394,6 +396,13 @@ class Flat(Harness):
             log = [bool(b == 1) for b in bits]
         elif op == "ilist":
             r = e[ctx.arr([x["i0"], x["i1"]], "int64")]
+        elif op == "mask_pylist":
+            log = [bool(x[f"m{i}"] == 1) for i in range(n)]
+            r = e[list(log)]
+        elif op in ("assign_via_rev", "assign_via_step"):
+            r = e.copy()
+            view = r[::-1] if op == "assign_via_rev" else r[::2]
+            view[0 if op == "assign_via_rev" else -1] = ch2
         elif op == "eq_char":
             return dict(kind="flat", v=ctx.lst(e == ch), src=ctx.lst(src.raw()))
         elif op == "eq_array":
@@ -462,8 +471,13 @@ class Flat(Harness):
             return s[1:-1]
         if op == "rev":
             return s[::-1]
-        if op == "mask":
+        if op in ("mask", "mask_pylist"):
             return [t for t, b in zip(s, out["log"]) if b]
+        if op == "assign_via_rev":
+            return s[:-1] + [ch2]
+        if op == "assign_via_step":
+            k = 2 * ((n - 1) // 2)
+            return s[:k] + [ch2] + s[k + 1:]
         if op == "ilist":
             return [IDX(s, g("i0")), IDX(s, g("i1"))]
         if op == "eq_char":
